@@ -255,3 +255,21 @@ func VerifPlanValid(doc []byte) (parsed bool, valid bool) {
 	}
 	return true, in.Validate() == nil
 }
+
+// ---- storage (byte level) --------------------------------------------------------------------
+
+func VerifAppendEvents(path string, evs []Event) error { return appendEvents(path, evs) }
+func VerifReplaceEvents(path string, evs []Event) error { return replaceEventsAtomically(path, evs) }
+
+// VerifClassifyLine says what readEvents makes of one physical line: "blank", "bad", or the canonical event.
+func VerifClassifyLine(line []byte) any {
+	trimmed := bytes.TrimSpace(line)
+	if len(trimmed) == 0 {
+		return "blank"
+	}
+	var e Event
+	if err := json.Unmarshal(trimmed, &e); err != nil {
+		return "bad"
+	}
+	return VerifCanonEvent(e)
+}
